@@ -463,7 +463,7 @@ def gen_blanklines(seed, big):
     for ind in ('', '  ', '\t'):
         for b in range(0, 4):
             for a in range(0, 4):
-                for blank in ('', '  '):
+                for blank in ('', '  ', '\t', ' \t'):
                     src = ind + 'X é\n' + (blank + '\n') * b + ind + f"<{RM} name='f1'>\n" + ind + '  gone\n' + ind + f"</{RM}>\n" + (blank + '\n') * a + ind + 'Y\n'
                     want = a + b - (1 if a > 0 and b > 0 else 0)
                     def oracle(r, want=want, ind=ind):
@@ -481,10 +481,81 @@ def gen_blanklines(seed, big):
     return out
 
 
+def gen_lines_intact(seed, big):
+    """C13 (first half): block-style removal leaves every surviving non-blank line byte-for-byte (indentation included),
+    also when the file starts with empty lines (the indented tag is then on line 2 or later)"""
+    out = []
+    for k in (1, 2):
+        for ind in ('  ', '\t', '    '):
+            for ind2 in ('', '  ', '\t'):
+                for a in (0, 1, 2):
+                    for blank in ('', ' ', '\t'):
+                        src = '\n' * k + ind + f"<{RM} name='f1'>\n" + ind + '  gone\n' + ind + f"</{RM}>\n" + (blank + '\n') * a + ind2 + 'keep(); é\n'
+                        def oracle(r, ind2=ind2):
+                            if not r.get('ok'):
+                                return 'clean panicked: ' + str(r.get('panic'))[:160]
+                            nb = [l for l in r['output'].split('\n') if l.strip()]
+                            if nb != [ind2 + 'keep(); é']:
+                                return f'surviving line not intact: {nb} (output {r["output"]!r})'
+                            return None
+                        out.append((dict(cfg(), mode='clean', source=src, ds='<', de='>'), oracle))
+    return out
+
+
+def gen_list_regions(seed, big):
+    """C15: the Ready items of `list` are the regions clean deletes: same count, first/last line, highlighted text == region text"""
+    import re as _re
+    rnd = random.Random(seed + 8)
+    out = []
+    for _ in range(200 if big else 60):
+        lines, regions = [], []          # regions: (first_line, last_line, text)
+        nblocks = rnd.randint(1, 3)
+        final_nl = rnd.random() < 0.6
+        for bi in range(nblocks):
+            for _ in range(rnd.randint(0, 2)):
+                lines.append(rnd.choice(['a();', '  b = 1; // é', '\tc', 'これ']))
+            ind = rnd.choice(['', '  ', '\t'])
+            kind = rnd.choice(['block', 'inline', 'pending'])
+            if kind == 'inline':
+                pre, post = rnd.choice(['x = ', 'é ', '']), rnd.choice([';', ' // t', ''])
+                body = rnd.choice(['1', 'old()', 'ü'])
+                el = f"<{RM} name='f1'>{body}</{RM}>"
+                lines.append(ind + pre + el + post)
+                regions.append((len(lines), len(lines), el))
+            elif kind == 'block':
+                first = len(lines) + 1
+                inner = [ind + '  ' + rnd.choice(['gone();', 'é = 2;']) for _ in range(rnd.randint(0, 2))]
+                blk = [ind + f"<{TL} to='{PAST}'>"] + inner + [ind + f"</{TL}>"]
+                lines += blk
+                text = '\n'.join(blk)[len(ind):]
+                regions.append((first, len(lines), text))
+            else:
+                lines += [ind + f"<{RM} name='zz'>", ind + '  kept', ind + f"</{RM}>"]
+        if rnd.random() < 0.7:
+            lines.append('tail')
+        src = '\n'.join(lines) + ('\n' if final_nl else '')
+        def oracle(r, regions=regions, src=src):
+            if not r.get('ok'):
+                return 'list panicked: ' + str(r.get('panic'))[:160]
+            items = _re.split(r'\n-------- \[ \d+ \]  Ready  --------\n', r['output'])[1:]
+            if len(items) != len(regions):
+                return f'{len(items)} Ready items listed, {len(regions)} regions are deleted by clean'
+            for it, (f, l, text) in zip(items, regions):
+                hl = '\n'.join(_re.findall(r'\x1b\[31m(.*?)\x1b\[0m', it))
+                nums = [int(x) for x in _re.findall(r'^\s*(\d+) \|', it, flags=_re.M)]
+                if hl != text.replace('\t', '    '):
+                    return f'highlighted text {hl!r} differs from the region text {text!r}'
+                if not nums or nums[0] != f or nums[-1] != l:
+                    return f'line numbers {nums[:1]}..{nums[-1:]} differ from the region lines {f}..{l}'
+            return None
+        out.append((dict(cfg(), mode='list', source=src, ds='<', de='>'), oracle))
+    return out
+
+
 GENERATORS = {
     'C01': [gen_totality], 'C04': [gen_identity, gen_identity_unwrappable], 'C07': [gen_partition], 'C08': [gen_recognition], 'C05': [gen_expiry], 'C06': [gen_marker],
     'C09': [gen_grammar], 'C02': [gen_blocks, gen_inline], 'C03': [gen_blocks, gen_inline], 'C11': [gen_blocks], 'C17': [gen_list_all],
-    'C12': [gen_dedent], 'C13': [gen_blanklines], 'C14': [gen_inline],
+    'C12': [gen_dedent], 'C13': [gen_blanklines, gen_lines_intact], 'C14': [gen_inline], 'C15': [gen_list_regions],
 }
 
 
